@@ -13,3 +13,17 @@ func VerifC02Sequence() {
 func VerifC02AfterNullOverwrite() {
 	verifVersionsRunFrom([]int{0, 3, 0, 4, 0, 3}, verifParam("steps", 2), false, "C02-latest-promotion-by-created-at", "")
 }
+
+// VerifC02AfterEnabledPut: from  enable . put(v1)  continue with symbolic
+// operations (histories in which a real version exists before the bucket is
+// suspended or the key deleted).
+func VerifC02AfterEnabledPut() {
+	verifVersionsRunFrom([]int{3, 0}, verifParam("steps", 2), false, "C02-latest-promotion-by-created-at", "")
+}
+
+// VerifC02NullNewerThanVersion: from  enable . put(v1) . suspend . put(null) .
+// enable . put(v2)  continue with symbolic operations: the null version is newer
+// than the surviving version v1 and older than v2.
+func VerifC02NullNewerThanVersion() {
+	verifVersionsRunFrom([]int{3, 0, 4, 0, 3, 0}, verifParam("steps", 1), false, "C02-latest-promotion-by-created-at", "")
+}
